@@ -1,7 +1,7 @@
 (* Props/C07.v — Comprehension macros equal their defining folds; loop variables are lexical. *)
 From Coq Require Import ZArith List Bool.
 From Rscel Require Import Base.Prims Model.Value Model.Ops Model.Funcs Model.Interp.
-From Rscel Require Import Proofs.Macros.
+From Rscel Require Import Proofs.Macros Proofs.Map3.
 Import ListNotations.
 Import Coq.Strings.String.StringSyntax.
 Open Scope Z_scope.
@@ -117,3 +117,24 @@ Theorem C07_map_macros_visit_sorted_keys : forall rs E d m a0 a1,
     with_ident rs a0 (fun x => map_loop rs E d x None a1 (map (fun kv => VString (fst kv)) m) []).
 Proof. exact map_macros_visit_sorted_keys. Qed.
 Print Assumptions C07_map_macros_visit_sorted_keys.
+
+(** the three-argument map  l.map(x, pred, f): pred on every element in order, f exactly on those whose
+    predicate is truthy (right after it), f's values in order; the first failing pred or f ends the loop *)
+Theorem C07_map3_filters_then_maps : forall rs E d x pred body l lg ys lg' acc,
+  trace3 rs E d x pred body l lg ys lg' ->
+  map_loop rs E d x (Some pred) body l acc lg = (ROk (VList (rev acc ++ ys)), lg').
+Proof. exact map3_filters_then_maps. Qed.
+Print Assumptions C07_map3_filters_then_maps.
+
+Theorem C07_map3_stops_at_failing_predicate : forall rs E d x pred body pre v post lg ys lg1 e lg2 acc,
+  trace3 rs E d x pred body pre lg ys lg1 -> Bp rs E d x pred v lg1 = (ROk (inl e), lg2) ->
+  map_loop rs E d x (Some pred) body (pre ++ v :: post) acc lg = (ROk e, lg2).
+Proof. exact map3_stops_at_failing_predicate. Qed.
+Print Assumptions C07_map3_stops_at_failing_predicate.
+
+Theorem C07_map3_stops_at_failing_body : forall rs E d x pred body pre v post lg ys lg1 b lg2 e lg3 acc,
+  trace3 rs E d x pred body pre lg ys lg1 -> Bp rs E d x pred v lg1 = (ROk (inr b), lg2) -> is_truthy b = true ->
+  Bf rs E d x body v lg2 = (ROk (inl e), lg3) ->
+  map_loop rs E d x (Some pred) body (pre ++ v :: post) acc lg = (ROk e, lg3).
+Proof. exact map3_stops_at_failing_body. Qed.
+Print Assumptions C07_map3_stops_at_failing_body.
